@@ -38,7 +38,7 @@ def monitor(script, out):
         return "malformed output: %s" % e
     pending = {}      # add index -> (time, pay)
     handles = []      # add index per successful add
-    last = 0          # last fetched time
+    last = script[2]  # lower bound for adds: start time, then the last fetched time
     nadd = 0
     for o, r in recs:
         if o[0] == 1:
@@ -79,4 +79,8 @@ def monitor(script, out):
         elif o[0] == 5:
             if r != [4, last]:
                 return "time() reported %s, expected %d" % (r, last)
+        elif o[0] == 6:
+            want = [6, 1, min(v[0] for v in pending.values())] if pending else [6, 0]
+            if r != want:
+                return "peek_time reported %s, expected %s (time of the next fetch)" % (r, want)
     return None
